@@ -291,6 +291,284 @@ static std::string a64_query(const std::vector<std::string>& w) {
   return out;
 }
 
+
+// ---- host execution differ (SEARCH SUPPORT / TESTING, never the deciding step) ---------------------------------------------------
+//   e <name> <opts> <extra> <undefined-flags eflags-bits hex> <nstates> <seed> <op>*
+// Encodes the instruction with the real assembler between a register/flag/memory load and store sequence, runs it in a forked
+// child on random states and compares what changed with what query_rw_info reports as written (W:), what query_rw_info claims is
+// zero-extended (Z:), and whether results depend on anything not reported as read (R:).  Memory operands must use base rbp.
+#include <csetjmp>
+#include <csignal>
+#include <sys/wait.h>
+#include <unistd.h>
+
+struct alignas(64) ExecState {
+  uint64_t gp[16];
+  uint64_t flags;
+  uint64_t k[8];
+  uint8_t vec[32][64];
+  uint8_t mem[256];
+};
+static const uint64_t kArithFlags = 0x8D5;   // OF SF ZF AF PF CF
+static sigjmp_buf exec_jmp;
+static volatile sig_atomic_t exec_sig;
+static void exec_handler(int sig) { exec_sig = sig; siglongjmp(exec_jmp, 1); }
+
+struct Xs { uint64_t s; uint64_t next() { s ^= s << 13; s ^= s >> 7; s ^= s << 17; return s; } };
+
+static uint64_t eflags_of(uint32_t rwflags) {
+  uint64_t e = 0;
+  if (rwflags & 0x1) e |= 0x800;   // OF
+  if (rwflags & 0x2) e |= 0x1;     // CF
+  if (rwflags & 0x4) e |= 0x40;    // ZF
+  if (rwflags & 0x8) e |= 0x80;    // SF
+  if (rwflags & 0x100) e |= 0x10;  // AF
+  if (rwflags & 0x200) e |= 0x4;   // PF
+  if (rwflags & 0x400) e |= 0x400; // DF
+  return e;
+}
+
+struct ExecPlan {
+  uint64_t gpW[16] = {0}, gpR[16] = {0}, gpZ[16] = {0};
+  uint64_t vecW[32] = {0}, vecR[32] = {0}, vecZ[32] = {0};
+  uint64_t kW[8] = {0}, kR[8] = {0};
+  uint64_t flagsW = 0, flagsR = 0;
+  bool memW = false, memR = false, hasMem = false;
+  uint32_t memSize = 0;
+  int vsibIndex = -1;
+};
+
+typedef void (*ExecFn)(ExecState* in, ExecState* out);
+
+static std::string exec_child(ExecFn fn, const ExecPlan& pl, uint64_t undefFlags, int nstates, uint64_t seed) {
+  static ExecState in1, in2, out1, out2;
+  static ExecState work;   // memory the instruction really touches lives in work.mem
+  Xs rng{seed * 0x9E3779B97F4A7C15ull + 12345};
+  struct sigaction sa;
+  memset(&sa, 0, sizeof(sa));
+  sa.sa_handler = exec_handler;
+  sa.sa_flags = SA_NODEFER;
+  for (int sg : {SIGSEGV, SIGBUS, SIGFPE, SIGILL, SIGTRAP, SIGALRM}) sigaction(sg, &sa, nullptr);
+  alarm(5);
+  uint64_t cur_flags = __builtin_ia32_readeflags_u64() & ~(kArithFlags | 0x400);
+  int faults = 0, done = 0;
+  std::string issues;
+  auto add_issue = [&](const std::string& s) { if (issues.find(s) == std::string::npos && issues.size() < 400) issues += " " + s; };
+  auto fill = [&](ExecState& st) {
+    for (auto& g : st.gp) g = rng.next();
+    // a few small / boundary values make shifts, divides and compares take their ordinary paths too
+    for (auto& g : st.gp) { uint64_t r = rng.next() % 8; if (r == 0) g &= 0xFF; else if (r == 1) g = 0; else if (r == 2) g = ~0ull; }
+    st.flags = cur_flags | (rng.next() & kArithFlags);
+    for (auto& k : st.k) k = rng.next();
+    for (auto& v : st.vec) for (int b = 0; b < 64; b += 8) { uint64_t x = rng.next(); memcpy(v + b, &x, 8); }
+    for (int b = 0; b < 256; b += 8) { uint64_t x = rng.next(); memcpy(st.mem + b, &x, 8); }
+  };
+  auto fix = [&](ExecState& st) {
+    st.gp[5] = uint64_t(uintptr_t(&work.mem[64])) - 16;     // [rbp+16] = work.mem[64]
+    if (pl.vsibIndex >= 0) for (int b = 0; b < 64; b += 8) { uint64_t x = (rng.next() % 4) * 8; memcpy(st.vec[pl.vsibIndex] + b, &x, 8); }
+  };
+  auto run = [&](ExecState& in, ExecState& out) -> bool {
+    memcpy(work.mem, in.mem, 256);
+    exec_sig = 0;
+    if (sigsetjmp(exec_jmp, 1) == 0) { fn(&in, &out); memcpy(out.mem, work.mem, 256); return true; }
+    return false;
+  };
+  for (int st = 0; st < nstates; st++) {
+    fill(in1); fix(in1);
+    if (!run(in1, out1)) {
+      if (exec_sig == SIGILL) return "skip SIGILL";
+      if (exec_sig == SIGALRM) return "skip timeout";
+      faults++;
+      continue;
+    }
+    done++;
+    char buf[96];
+    // A: everything that changed is reported as written; claimed zero extension is zero
+    for (int r = 0; r < 16; r++) {
+      if (r == 4 || r == 15 || r == 5) continue;
+      uint64_t ch = 0;
+      for (int b = 0; b < 8; b++) if (((in1.gp[r] ^ out1.gp[r]) >> (8 * b)) & 0xFF) ch |= 1ull << b;
+      if (ch & ~(pl.gpW[r] | pl.gpZ[r])) { snprintf(buf, sizeof(buf), "W:gp%d:%llx", r, (unsigned long long)(ch & ~(pl.gpW[r] | pl.gpZ[r]))); add_issue(buf); }
+      for (int b = 0; b < 8; b++) if (((pl.gpZ[r] & ~pl.gpW[r]) >> b) & 1) if ((out1.gp[r] >> (8 * b)) & 0xFF) { snprintf(buf, sizeof(buf), "Z:gp%d", r); add_issue(buf); }
+    }
+    for (int r = 0; r < 32; r++) {
+      uint64_t ch = 0;
+      for (int b = 0; b < 64; b++) if (in1.vec[r][b] != out1.vec[r][b]) ch |= 1ull << b;
+      if (ch & ~(pl.vecW[r] | pl.vecZ[r])) { snprintf(buf, sizeof(buf), "W:vec%d:%llx", r, (unsigned long long)(ch & ~(pl.vecW[r] | pl.vecZ[r]))); add_issue(buf); }
+      for (int b = 0; b < 64; b++) if (((pl.vecZ[r] & ~pl.vecW[r]) >> b) & 1) if (out1.vec[r][b]) { snprintf(buf, sizeof(buf), "Z:vec%d", r); add_issue(buf); break; }
+    }
+    for (int r = 0; r < 8; r++) {
+      uint64_t ch = 0;
+      for (int b = 0; b < 8; b++) if (((in1.k[r] ^ out1.k[r]) >> (8 * b)) & 0xFF) ch |= 1ull << b;
+      if (ch & ~pl.kW[r]) { snprintf(buf, sizeof(buf), "W:k%d:%llx", r, (unsigned long long)(ch & ~pl.kW[r])); add_issue(buf); }
+    }
+    if ((in1.flags ^ out1.flags) & (kArithFlags | 0x400) & ~pl.flagsW) { snprintf(buf, sizeof(buf), "W:flags:%llx", (unsigned long long)((in1.flags ^ out1.flags) & (kArithFlags | 0x400) & ~pl.flagsW)); add_issue(buf); }
+    for (int b = 0; b < 256; b++) if (in1.mem[b] != out1.mem[b]) {
+      bool inside = pl.hasMem && pl.memW && b >= 64 && uint32_t(b) < 64 + (pl.memSize ? pl.memSize : 64);
+      if (!inside) { snprintf(buf, sizeof(buf), "W:mem+%d", b - 64); add_issue(buf); break; }
+    }
+    // B: re-randomise everything not reported as read; whatever was really written must come out the same
+    in2 = in1;
+    ExecState rnd;
+    fill(rnd);
+    for (int r = 0; r < 16; r++) {
+      if (r == 4 || r == 15 || r == 5) continue;
+      uint64_t keep = 0;
+      for (int b = 0; b < 8; b++) if ((pl.gpR[r] >> b) & 1) keep |= 0xFFull << (8 * b);
+      in2.gp[r] = (in1.gp[r] & keep) | (rnd.gp[r] & ~keep);
+    }
+    for (int r = 0; r < 32; r++) if (r != pl.vsibIndex) for (int b = 0; b < 64; b++) if (!((pl.vecR[r] >> b) & 1)) in2.vec[r][b] = rnd.vec[r][b];
+    for (int r = 0; r < 8; r++) {
+      uint64_t keep = 0;
+      for (int b = 0; b < 8; b++) if ((pl.kR[r] >> b) & 1) keep |= 0xFFull << (8 * b);
+      in2.k[r] = (in1.k[r] & keep) | (rnd.k[r] & ~keep);
+    }
+    in2.flags = (in1.flags & ~kArithFlags) | (in1.flags & pl.flagsR & kArithFlags) | (rnd.flags & kArithFlags & ~pl.flagsR);
+    for (int b = 0; b < 256; b++) {
+      bool rd = pl.hasMem && pl.memR && b >= 64 && uint32_t(b) < 64 + (pl.memSize ? pl.memSize : 64);
+      if (!rd) in2.mem[b] = rnd.mem[b];
+    }
+    if (!run(in2, out2)) { add_issue("R:fault-depends-on-unreported-input"); continue; }
+    for (int r = 0; r < 16; r++) {
+      if (r == 4 || r == 15 || r == 5) continue;
+      for (int b = 0; b < 8; b++) {
+        if (!(((pl.gpW[r] | pl.gpZ[r]) >> b) & 1)) continue;
+        uint8_t a = uint8_t(out1.gp[r] >> (8 * b)), c = uint8_t(out2.gp[r] >> (8 * b));
+        bool written = a != uint8_t(in1.gp[r] >> (8 * b)) || c != uint8_t(in2.gp[r] >> (8 * b));
+        if (written && a != c) { snprintf(buf, sizeof(buf), "R:gp%d", r); add_issue(buf); break; }
+      }
+    }
+    for (int r = 0; r < 32; r++) for (int b = 0; b < 64; b++) {
+      if (!(((pl.vecW[r] | pl.vecZ[r]) >> b) & 1)) continue;
+      bool written = out1.vec[r][b] != in1.vec[r][b] || out2.vec[r][b] != in2.vec[r][b];
+      if (written && out1.vec[r][b] != out2.vec[r][b]) { snprintf(buf, sizeof(buf), "R:vec%d", r); add_issue(buf); break; }
+    }
+    for (int r = 0; r < 8; r++) for (int b = 0; b < 8; b++) {
+      if (!((pl.kW[r] >> b) & 1)) continue;
+      uint8_t a = uint8_t(out1.k[r] >> (8 * b)), c = uint8_t(out2.k[r] >> (8 * b));
+      bool written = a != uint8_t(in1.k[r] >> (8 * b)) || c != uint8_t(in2.k[r] >> (8 * b));
+      if (written && a != c) { snprintf(buf, sizeof(buf), "R:k%d", r); add_issue(buf); break; }
+    }
+    if ((out1.flags ^ out2.flags) & pl.flagsW & kArithFlags & ~undefFlags) { snprintf(buf, sizeof(buf), "R:flags:%llx", (unsigned long long)((out1.flags ^ out2.flags) & pl.flagsW & kArithFlags & ~undefFlags)); add_issue(buf); }
+    if (pl.hasMem && pl.memW) for (uint32_t b = 64; b < 64 + (pl.memSize ? pl.memSize : 64); b++) {
+      bool written = out1.mem[b] != in1.mem[b] || out2.mem[b] != in2.mem[b];
+      if (written && out1.mem[b] != out2.mem[b]) { add_issue("R:mem"); break; }
+    }
+  }
+  char head[64];
+  snprintf(head, sizeof(head), "ok n=%d faults=%d", done, faults);
+  return std::string(head) + (issues.empty() ? " clean" : issues);
+}
+
+static std::string x86_exec(const std::vector<std::string>& w) {
+  if (w.size() < 7) return "bad-line";
+  InstId id = InstAPI::string_to_inst_id(Arch::kX64, w[1].data(), w[1].size());
+  if (id == 0) return "skip noinst";
+  InstOptions opts = InstOptions::kNone;
+  if (w[2] != "-") for (char c : w[2]) { if (c == 'z') opts |= InstOptions::kX86_ZMask; else if (c == 'E') opts |= InstOptions::kX86_Evex; else return "skip opts"; }
+  uint64_t undef, nst, seed;
+  if (!vh::parse_hex(w[4], undef) || !vh::parse_u64(w[5], nst) || !vh::parse_u64(w[6], seed)) return "bad-line";
+  BaseInst inst(id, opts);
+  ExecPlan pl;
+  if (w[3] != "-") {
+    uint64_t kid;
+    if (w[3][0] != 'k' || !vh::parse_u64(w[3].substr(1), kid) || kid > 7) return "bad-extra";
+    inst = BaseInst(id, opts, Reg::from_type_and_id(RegType::kMask, uint32_t(kid)));
+    pl.kR[kid] = 0xFF;
+  }
+  Operand ops[Globals::kMaxOpCount];
+  size_t n = w.size() - 7;
+  if (n > Globals::kMaxOpCount) return "bad-opcount";
+  for (size_t i = 0; i < n; i++) if (!parse_x86_op(w[7 + i], ops[i])) return "bad-op";
+  if (InstAPI::validate(Arch::kX64, inst, ops, n, ValidationFlags::kNone) != Error::kOk) return "skip invalid";
+  InstRWInfo rw;
+  memset(&rw, 0, sizeof(rw));
+  if (InstAPI::query_rw_info(Arch::kX64, inst, ops, n, &rw) != Error::kOk) return "skip rw-error";
+  pl.flagsW = eflags_of(uint32_t(rw._write_flags));
+  pl.flagsR = eflags_of(uint32_t(rw._read_flags));
+  for (size_t i = 0; i < n; i++) {
+    const OpRWInfo& o = rw._operands[i];
+    uint64_t fl = uint64_t(o._op_flags);
+    if (ops[i].is_reg()) {
+      const Reg& r = ops[i].as<Reg>();
+      uint32_t rid = r.id();
+      uint64_t wm = (fl & 2) ? o._write_byte_mask : 0, rm = (fl & 1) ? o._read_byte_mask : 0, zm = o._extend_byte_mask;
+      if (r.is_gp()) {
+        if (rid == 4 || rid == 15 || rid == 5) return "skip reserved-register";
+        unsigned sh = r.reg_type() == RegType::kGp8Hi ? 1 : 0;
+        pl.gpW[rid] |= (wm << sh) & 0xFF; pl.gpR[rid] |= (rm << sh) & 0xFF; pl.gpZ[rid] |= (zm << sh) & 0xFF;
+      }
+      else if (r.is_vec()) { if (rid > 31) return "skip reg"; pl.vecW[rid] |= wm; pl.vecR[rid] |= rm; pl.vecZ[rid] |= zm; }
+      else if (r.reg_type() == RegType::kMask) { if (rid > 7) return "skip reg"; pl.kW[rid] |= (wm | zm) & 0xFF; pl.kR[rid] |= rm & 0xFF; }
+      else return "skip operand-kind";
+    }
+    else if (ops[i].is_mem()) {
+      const x86::Mem& m = ops[i].as<x86::Mem>();
+      if (pl.hasMem || !m.has_base_reg() || m.base_id() != 5) return "skip memory-form";
+      pl.hasMem = true;
+      pl.memW = (fl & 2) != 0;
+      pl.memR = (fl & 1) != 0;
+      pl.memSize = m.size();
+      if (m.has_index_reg()) {
+        if (!Reg::from_type_and_id(m.index_type(), 0).is_vec()) return "skip index";
+        pl.vsibIndex = int(m.index_id());
+        pl.vecR[pl.vsibIndex] = ~0ull;
+      }
+    }
+  }
+  // code: load state, instruction, store state
+  JitRuntime rt;
+  CodeHolder code;
+  code.init(rt.environment());
+  x86::Assembler a(&code);
+  using namespace x86;
+  for (const Gp& r : {rbx, rbp, r12, r13, r14, r15}) a.push(r);
+  a.push(rsi);
+  a.mov(r15, rdi);
+  for (uint32_t i = 0; i < 8; i++) a.kmovq(KReg(i), qword_ptr(r15, int32_t(offsetof(ExecState, k) + 8 * i)));
+  for (uint32_t i = 0; i < 32; i++) a.vmovdqu64(Vec::make_v512(i), zmmword_ptr(r15, int32_t(offsetof(ExecState, vec) + 64 * i)));
+  a.push(qword_ptr(r15, int32_t(offsetof(ExecState, flags))));
+  a.popfq();
+  for (uint32_t i = 0; i < 15; i++) if (i != 4) a.mov(Gp::make_r64(i), qword_ptr(r15, int32_t(offsetof(ExecState, gp) + 8 * i)));
+  a.set_inst_options(opts);
+  if (inst.has_extra_reg()) a.set_extra_reg(inst.extra_reg());
+  if (a._emit_op_array(id, ops, n) != Error::kOk) return "skip not-encodable";
+  a.mov(r15, qword_ptr(rsp));
+  for (uint32_t i = 0; i < 15; i++) if (i != 4) a.mov(qword_ptr(r15, int32_t(offsetof(ExecState, gp) + 8 * i)), Gp::make_r64(i));
+  a.pushfq();
+  a.pop(qword_ptr(r15, int32_t(offsetof(ExecState, flags))));
+  a.cld();
+  for (uint32_t i = 0; i < 8; i++) a.kmovq(qword_ptr(r15, int32_t(offsetof(ExecState, k) + 8 * i)), KReg(i));
+  for (uint32_t i = 0; i < 32; i++) a.vmovdqu64(zmmword_ptr(r15, int32_t(offsetof(ExecState, vec) + 64 * i)), Vec::make_v512(i));
+  a.add(rsp, 8);
+  for (const Gp& r : {r15, r14, r13, r12, rbp, rbx}) a.pop(r);
+  a.ret();
+  ExecFn fn = nullptr;
+  if (rt.add(&fn, &code) != Error::kOk) return "skip jit";
+  int fds[2];
+  if (pipe(fds) != 0) return "skip pipe";
+  fflush(stdout);
+  pid_t pid = fork();
+  if (pid == 0) {
+    close(fds[0]);
+    std::string r = exec_child(fn, pl, undef, int(nst), seed);
+    ssize_t wr = write(fds[1], r.data(), r.size());
+    (void)wr;
+    _exit(0);
+  }
+  close(fds[1]);
+  std::string out;
+  char buf[512];
+  ssize_t k;
+  while ((k = read(fds[0], buf, sizeof(buf))) > 0) out.append(buf, size_t(k));
+  close(fds[0]);
+  int status = 0;
+  waitpid(pid, &status, 0);
+  rt.release(fn);
+  if (out.empty()) return "skip child-died status=" + std::to_string(status);
+  return out;
+}
+
 // ---- table dump ------------------------------------------------------------------------------------------------------------
 
 static void dump_tables() {
@@ -352,6 +630,7 @@ int main() {
     if (w[0] == "tables") { dump_tables(); return ""; }
     if (w[0] == "x") return x86_query(w);
     if (w[0] == "a") return a64_query(w);
+    if (w[0] == "e") return x86_exec(w);
     return "bad-line";
   });
 }
